@@ -78,13 +78,34 @@ pub fn builder(ts: &J) -> Result<SchemaBuilder, String> {
     let s = ts["subscription"].as_str().filter(|s| !s.is_empty()).map(|s| s.to_string());
     let mut b = Schema::build(&q, m.as_deref(), s.as_deref());
     let types = ts["types"].as_object().ok_or("ts.types missing")?;
+    // ts.federation: keyed objects (def.key), the library's own _Entity / _entities / _service, and an entity
+    // resolver that turns a representation {__typename, id} into the object with that id
+    let federation = ts["federation"].as_bool().unwrap_or(false);
+    if federation {
+        b = b.enable_federation().entity_resolver(|ctx| {
+            FieldFuture::new(async move {
+                let reps = ctx.args.try_get("representations")?.list()?;
+                let mut out = Vec::new();
+                for r in reps.iter() {
+                    let o = r.object()?;
+                    let ty = o.try_get("__typename")?.string()?.to_string();
+                    let id = o.try_get("id")?.string()?.to_string();
+                    out.push(FieldValue::owned_any(id).with_type(ty));
+                }
+                Ok(Some(FieldValue::list(out)))
+            })
+        });
+    }
     for (name, def) in types {
+        if federation && name.starts_with('_') { continue; }
         match def["kind"].as_str().unwrap_or("") {
             "OBJECT" => {
                 let mut o = Object::new(name.as_str());
+                if let Some(k) = def["key"].as_str() { o = o.key(k); }
                 for i in def["implements"].as_array().map(|a| a.as_slice()).unwrap_or(&[]) { o = o.implement(i.as_str().unwrap()); }
                 let root_id = if *name == q { "root" } else if Some(name) == m.as_ref() { "mroot" } else { "" };
                 for (fname, fdef) in def["fields"].as_object().ok_or("fields missing")? {
+                    if federation && fname.starts_with('_') { continue; }
                     let nt = named(&fdef["ty"]);
                     let abstract_named = matches!(types.get(&nt).and_then(|d| d["kind"].as_str()), Some("INTERFACE") | Some("UNION"));
                     let fname2 = fname.clone();
